@@ -1067,6 +1067,7 @@ func c10EndToEnd(rep *Report) {
 				Want: fmt.Sprintf("%v (= explicit call)", want), Got: fmt.Sprintf("%v (error %v)", got, gerr), Replay: string(rp)})
 		}
 	}
+	c10Round7(rep)
 	// TWO overloaded operators: an occurrence whose operand types find no candidate under one operator (the built-in applies)
 	// does not stop a LATER occurrence of the other operator on operands of the same types from being overloaded
 	for _, c := range []c10E2E{
